@@ -319,6 +319,52 @@ def solve_operands_config(h, kind):
     h.equal('second solve == first solve', np.asarray(y2), want)
 
 
+def tables_history_config(h, mesh):
+    """Connectivity tables are derived lazily and cached on the mesh object: after the operand's tables were built, every mesh
+    RETURNED by an operation must carry the tables of a mesh built from scratch with its own (p, t); the operand's tables stay as they were."""
+    import skfem as S
+    with warnings.catch_warnings():
+        warnings.simplefilter('ignore')
+        m = make_mesh(h, mesh)
+        dim = m.p.shape[0]
+        names = ['facets', 't2f', 'f2t'] + (['edges', 't2e', 'f2e'] if dim == 3 else [])
+        before = {n: np.array(getattr(m, n), copy=True) for n in names}
+        m.boundary_facets()
+        try:
+            m.element_finder()
+        except Exception:   # noqa
+            pass
+        d = h.sym('d', (dim,), nominal=np.full(dim, 0.5))
+        nt = m.t.shape[1]
+        results = {
+            'restrict(last cell)': m.restrict(np.array([nt - 1], dtype=np.int32)),
+            'remove_elements(first cell)': m.remove_elements(np.array([0], dtype=np.int32)),
+            'translated': m.translated(tuple(d)),
+            'with_subdomains': m.with_subdomains({'s': np.array([0], dtype=np.int32)}),
+            'with_boundaries': m.with_boundaries({'b': np.array([0], dtype=np.int32)}),
+            'refined(1)': m.refined(1),
+            'copy': m.copy(),
+        }
+        if type(m).__name__ == 'MeshQuad1':
+            results['to_meshtri'] = m.to_meshtri()
+        if type(m).__name__ == 'MeshLine1':
+            results['refined([0])'] = m.refined(np.array([0], dtype=np.int32))
+        h.sample(dict(mesh=mesh, operations=sorted(results)))
+        t_ = h.sym('t', ())
+        h.zero('trivial', t_ - t_)
+        for opn, R in results.items():
+            fresh = type(R)(R.doflocs, R.t, validate=False) if 'validate' in type(R).__dataclass_fields__ else type(R)(R.doflocs, R.t)
+            same_t = np.array_equal(np.asarray(fresh.t), np.asarray(R.t))
+            h.concrete('%s: a mesh built from scratch with the same (p, t) keeps the cell list' % opn, same_t)
+            if not same_t:
+                continue
+            for n in names:
+                h.concrete('%s: %s == table of a mesh built from scratch' % (opn, n), np.array_equal(np.asarray(getattr(R, n)), np.asarray(getattr(fresh, n))))
+            h.concrete('%s: boundary_facets == from scratch' % opn, np.array_equal(np.asarray(R.boundary_facets()), np.asarray(fresh.boundary_facets())))
+        for n in names:
+            h.concrete('operand: %s unchanged' % n, np.array_equal(np.asarray(getattr(m, n)), before[n]))
+
+
 def build_configs(tier, seed):
     quick = tier == 'quick'
     cfgs = []
@@ -352,6 +398,8 @@ def build_configs(tier, seed):
         add('shared-element/%s/%s/%s' % (mesh, spec, kinds), shared_element_config, mesh=mesh, spec=spec, kinds=kinds, timeout=900)
     for kind in ('index', 'mpc-tuple'):
         add('solve-operands/%s' % kind, solve_operands_config, kind=kind)
+    for mesh in ('tri3fan', 'quad2', 'tet2', 'line3perm'):
+        cfgs.append(dict(name='tables-history/%s' % mesh, fn=tables_history_config, kw=dict(mesh=mesh), opts=dict(timeout=600, follow_nominal=True)))
     return cfgs
 
 
